@@ -60,6 +60,9 @@ func inspect(c *Config, m *diam.Message) {
 	_ = m.PrettyDump()
 	_, _ = m.Serialize()
 	_ = m.Len()
+	var sink bytes.Buffer
+	_, _ = m.WriteTo(&sink) // the pooled write path sizes its buffer separately from Serialize
+	_, _ = m.WriteToWithRetry(&sink, 1)
 	_ = m.Unmarshal(new(smparser.CER))
 	_ = m.Unmarshal(new(smparser.CEA))
 	_ = m.Unmarshal(new(smparser.DWR))
@@ -513,7 +516,7 @@ func c03Enum(ctx *ev.Ctx, fn func(*Config, C03Case)) string {
 			emit(c, "message", fmt.Sprintf("grouped AVP nested in itself %d deep", depth), nestedMessage(c, depth))
 		}
 	}
-	return "(i) every byte string of length <=1 and a lattice of length 2 (thorough: all) on every entry point; 20-byte headers with every declared length 0..2100 and 2^k-1, 2^k, 2^k+1 up to 2^24-1 x 4 commands x R bit, header only and with the body supplied; (ii) AVP shapes code {one per type, vendor variants, groups, undefined} x flags {0,0x20,0x40,0x80,0xC0,0xFF} x declared length 0..44 x bytes available 0..44 (quick: the neighbourhood of declared, multiples of 8) as DecodeAVP input, as message body and as group payload; (iii) every datatype decoder on payloads of 0..24 bytes x 4 fill patterns; (iv) every single structured corruption (each length field to 16 boundary values, every flag bit, code to undefined/0/2^31-1, truncation at every offset with and without a consistent header) of well-formed seeds covering every type and nesting, and every pair of corruptions on small seeds (thorough: triples on one seed); (v) a grouped AVP nested 1..1000 deep in-process with every inspection (String/PrettyDump are cubic in depth), 3000 deep with re-serialisation measured, and 6*10^4 (thorough) and 2*10^6 deep in child processes under an 8 GiB address-space cap. On everything that decodes: String, PrettyDump, Serialize, Unmarshal into CER/CEA/DWR/DWA and a generic struct, FindAVP/FindAVPs/FindAVPsWithPath by code and name. Distinct by (configuration, entry point, bytes)."
+	return "(i) every byte string of length <=1 and a lattice of length 2 (thorough: all) on every entry point; 20-byte headers with every declared length 0..2100 and 2^k-1, 2^k, 2^k+1 up to 2^24-1 x 4 commands x R bit, header only and with the body supplied; (ii) AVP shapes code {one per type, vendor variants, groups, undefined} x flags {0,0x20,0x40,0x80,0xC0,0xFF} x declared length 0..44 x bytes available 0..44 (quick: the neighbourhood of declared, multiples of 8) as DecodeAVP input, as message body and as group payload; (iii) every datatype decoder on payloads of 0..24 bytes x 4 fill patterns; (iv) every single structured corruption (each length field to 16 boundary values, every flag bit, code to undefined/0/2^31-1, truncation at every offset with and without a consistent header) of well-formed seeds covering every type and nesting, and every pair of corruptions on small seeds (thorough: triples on one seed); (v) a grouped AVP nested 1..1000 deep in-process with every inspection (String/PrettyDump are cubic in depth), 3000 deep with re-serialisation measured, and 6*10^4 (thorough) and 2*10^6 deep in child processes under an 8 GiB address-space cap. On everything that decodes: String, PrettyDump, Serialize, WriteTo, Unmarshal into CER/CEA/DWR/DWA and a generic struct, FindAVP/FindAVPs/FindAVPsWithPath by code and name. Distinct by (configuration, entry point, bytes)."
 }
 
 func nestedMessage(c *Config, depth int) []byte {
